@@ -44,7 +44,8 @@ ASSUMPTIONS = ['Series form goes through pdextract, which only takes a seed: '
 
 F_ORDER_SAMPLE = 'F-rexpy-sample-depends-on-order'
 
-VARIANTS = ['asis', 'perm', 'dict', 'repeat', 'series', 'dict0']
+VARIANTS = ['asis', 'perm', 'dict', 'repeat', 'series', 'dict0',
+            'series-cat', 'bytes', 'bytes-dict']
 
 
 def set_strategy(tier):
@@ -168,6 +169,16 @@ def variant_input(xs, variant, key):
     if variant == 'repeat':
         reps = [x for (i, x) in enumerate(xs) if (key >> (i % 10)) & 1]
         return list(xs) + (reps or list(xs[:1]))
+    if variant == 'bytes':
+        # byte strings; with utf-8-sig a leading BOM decodes to nothing, so
+        # different byte strings can be the same example
+        # (nulls are left out: with an encoding rexpy decodes every entry)
+        return [((b'\xef\xbb\xbf' if (key >> (i % 10)) & 1 else b'')
+                 + x.encode('utf-8')) for (i, x) in enumerate(xs)
+                if x is not None]
+    if variant == 'bytes-dict':
+        c = Counter(x for x in xs if x is not None)
+        return {x.encode('utf-8'): n for (x, n) in c.items()}
     raise ValueError(variant)
 
 
@@ -291,14 +302,27 @@ def run(case, ctx):
         variant = step['variant']
         kept = G.kept_examples(c)
         distinct = sorted(set(kept))
-        if variant == 'series':
+        if variant in ('series', 'series-cat'):
             if any(x is not None and '\x00' in x for x in xs):
                 variant = 'perm'
+        if variant in ('bytes', 'bytes-dict'):
+            try:
+                [x.encode('utf-8') for x in xs if x is not None]
+            except UnicodeEncodeError:
+                variant = 'perm'
         before = random.getstate()
-        if variant == 'series':
+        if variant in ('series', 'series-cat'):
             import pandas as pd
             given = det_perm(xs, step['key'])
-            col = pd.Series(given, dtype=object)
+            if variant == 'series-cat':
+                # a categorical column that declares categories no row uses
+                vals = [x for x in given if x is not None]
+                col = pd.Series(pd.Categorical(
+                    given, categories=sorted(set(vals))
+                    + ['UNUSED zz-9', '99:99']))
+            else:
+                col = pd.Series(given, dtype=object)
+            variant = 'series'
             ok, r = call(rexpy.pdextract, col, seed=seed)
             slot = (si, seed, 'default')
             cdef = {'examples': xs, 'opts': {}, 'size': None}
@@ -308,7 +332,13 @@ def run(case, ctx):
             kw = G.extract_kwargs(c)
             kw['seed'] = seed
             given = variant_input(xs, variant, step['key'])
+            if variant == 'bytes':
+                kw['encoding'] = 'utf-8-sig'
+            elif variant == 'bytes-dict':
+                kw['encoding'] = 'utf-8'
             ok, r = call(rexpy.extract, given, **kw)
+            if variant in ('bytes', 'bytes-dict'):
+                given = xs          # the same multiset, in this order
             slot = (si, seed, 'opts')
             n_distinct = len(distinct)
             sampling = G.sampling_path(c, n_distinct)
